@@ -114,6 +114,11 @@ class CreateConnectionDecl(Contract):
             conn = new_connection(E, st, fresh_name("newconn"))
             st.set(conn, "objectId", VOpaque(fresh("objectId", U)))
             st.set(a["self"], "_pyroConnection", conn)
+            # connecting reads the handshake reply: ITS annotations are what current_context.response_annotations holds afterwards
+            ctx = st.genv.get("current_context") if hasattr(st, "genv") and st.genv else None
+            if ctx is not None:
+                from specs.daemon_model import new_annotations as _na
+                st.set(ctx, "response_annotations", _na(st, ["handshake-reply"], "handshake_reply_annotations"))
 
     def x_any(self, E, old, st, a, exc):
         return []
@@ -192,6 +197,10 @@ class PyroInvoke(Contract):
             sent_flags = margs["flags"].e if margs else z3.IntVal(0)
             post.append(("returns None without reading only for a oneway request", bit(sent_flags, 2) == 1))
             post.append(("oneway: no reply is consumed", z3.BoolVal(not calls(st, "protocol.recv_stub"))))
+            ctx = st.genv["current_context"]
+            ra = st.get(ctx, "response_annotations")
+            post.append(("C12: after a oneway call the response annotations are a fresh empty dict (not those of an earlier call, not the handshake reply's)",
+                         z3.BoolVal(isinstance(ra, VObj) and ra.ref not in self.initial_refs and "handshake-reply" not in st.get(ra, "prov", frozenset()))))
             return post
         post.append(("a non-oneway call that returns has consumed exactly one reply message", z3.BoolVal(len(got) == 1)))
         if got:
@@ -205,7 +214,8 @@ class PyroInvoke(Contract):
             ctx = st.genv["current_context"]
             ra = st.get(ctx, "response_annotations")
             post.append(("C12: afterwards the response annotations are this reply's annotations or a fresh empty dict",
-                         z3.BoolVal(isinstance(ra, VObj) and (ra.ref == st.get(msg, "annotations").ref or ra.ref not in self.initial_refs))))
+                         z3.BoolVal(isinstance(ra, VObj) and (ra.ref == st.get(msg, "annotations").ref or
+                                                              (ra.ref not in self.initial_refs and "handshake-reply" not in st.get(ra, "prov", frozenset()))))))
         return post
 
     def x_any(self, E, old, st, a, exc):
